@@ -425,6 +425,38 @@ func (x *W) Wait() int {
 	}
 }
 
+func (x *W) BadE13StaleWait() int {
+	x.Lock()
+	q, z := x.q, x.sizeQ
+	x.Unlock()
+	for {
+		select {
+		case v := <-q:
+			return v
+		case <-z:
+			x.Lock()
+			z = x.sizeQ
+			x.Unlock()
+		}
+	}
+}
+
+func (x *W) OkE13RefreshWait() int {
+	x.Lock()
+	q, z := x.q, x.sizeQ
+	x.Unlock()
+	for {
+		select {
+		case v := <-q:
+			return v
+		case <-z:
+			x.Lock()
+			q, z = x.q, x.sizeQ
+			x.Unlock()
+		}
+	}
+}
+
 func (x *W) BadE13Resize(n int) {
 	x.Lock()
 	x.q = make(chan int, n)
@@ -681,6 +713,7 @@ func runSelfTests(verifDir string) SelfTestResult {
 		completeReadFatal(p, r8, "read", self)
 		nilSafe(p, r8, "e12", "self-test", func(fn *ssa.Function) bool { rel, _ := p.FuncRel(fn); return rel == selfTestRel })
 		waitedChannelStable(p, r8, "e13", self)
+		waitersReread(p, r8, "e13c", self)
 		derivedCoherent(p, r8, "e14", self)
 		rearmStopsPrevious(p, r8, "rearm", self)
 		for _, o := range r8.Obs {
@@ -724,7 +757,7 @@ func runSelfTests(verifDir string) SelfTestResult {
 		"BadE13Resize":            "e13",
 		"BadE14Add":               "e14",
 	}
-	silent := []string{"okE1Defer", "OkE3Read", "OkE3bRecheck", "OkCondWait", "OkE5Once", "OkE5UniqueThenWrite", "OkE6d", "OkE6dRange", "SetN", "Close", "NewT", "OkE5Loop", "OkBufferBeforeFree", "OkE11Closed", "OkE11StoredFirst", "OkForward", "OkPublish", "OkFullRead", "Arm", "OkE12Stop", "OkE12Helper", "peerReady", "OkE12Companion", "OkE12Map", "OkE12LazyMap", "OkE13Resize", "NewW", "Wait", "OkE14Del", "All", "OkE11FreshObject", "OkRearm", "OkE12Close", "NewCQ", "Start", "NewP"}
+	silent := []string{"okE1Defer", "OkE3Read", "OkE3bRecheck", "OkCondWait", "OkE5Once", "OkE5UniqueThenWrite", "OkE6d", "OkE6dRange", "SetN", "Close", "NewT", "OkE5Loop", "OkBufferBeforeFree", "OkE11Closed", "OkE11StoredFirst", "OkForward", "OkPublish", "OkFullRead", "Arm", "OkE12Stop", "OkE12Helper", "peerReady", "OkE12Companion", "OkE12Map", "OkE12LazyMap", "OkE13Resize", "NewW", "Wait", "OkE14Del", "All", "OkE11FreshObject", "OkRearm", "OkE12Close", "NewCQ", "Start", "NewP", "OkE13RefreshWait"}
 	var names []string
 	for k := range want {
 		names = append(names, k)
